@@ -58,6 +58,11 @@ for d in sorted(glob.glob(os.path.join(ROOT, "seeded", "*"))):
     prop = meta.get("property", sid[:3])
     r = res.get(prop, {})
     verdict = "CAUGHT" if r.get("caught") else ("harness error" if r.get("harness_error") else ("missed" if r else "not run"))
+    others = sorted(k for k, v in res.items() if k != prop and v.get("caught"))
+    if verdict == "missed" and others:
+        verdict = "CAUGHT by " + "+".join(others)
+        r = res[others[0]]
+        n_c += 1; n_m -= 1
     n_c += verdict == "CAUGHT"; n_m += verdict == "missed"
     needs = str(meta.get("what_it_needs_to_manifest", meta.get("title", ""))).replace("\n", " ").replace("|", "/")[:260]
     first = str(r.get("first", "")).replace("|", "/").replace("\n", " ")[:160]
